@@ -31,6 +31,8 @@ pub fn gen_ops(src: &mut Src, max_ops: usize, window: u64) -> Vec<SetOp> {
     // Stamps start >= 1 h after the datacake epoch (2023-01-01): the purge cut-off saturates at the
     // epoch, and no real clock can issue earlier stamps.
     let base = *src.pick(&[5_000u64, 3_700, 4_000, 1_000_000, (1u64 << 32) - 1 - 3_600, 10, 3_000]);
+    // keep the whole window inside the 32-bit seconds a timestamp can carry
+    let base = base.min((1u64 << 32) - 1 - window);
     let mut sg = StampGen::new(base, window, nodes);
     let mut ops = vec![];
     for _ in 0..n {
@@ -59,7 +61,12 @@ impl Prop for C04 {
 
     fn gen(&self, src: &mut Src) -> Case {
         let sources = 1 + src.below(2);
-        let ops = gen_ops(src, 7, 3_000);
+        // one case in three spreads the stamps over up to four hours: the statement's condition is per ORIGIN (no
+        // operation older than the forgiveness window relative to what the replica has already seen from its
+        // origin), operations of different origins may be hours apart
+        let wide = src.chance(1, 3);
+        let window = if wide { *src.pick(&[7_200u64, 14_400]) } else { 3_000 };
+        let ops = gen_ops(src, 7, window);
         let perm = src.permutation(ops.len());
         let mut ops: Vec<(SetOp, usize)> = perm
             .into_iter()
@@ -75,6 +82,19 @@ impl Prop for C04 {
             let at = which + 1 + src.below(ops.len() - which);
             let copy = (ops[which].0, src.below(sources));
             ops.insert(at, copy);
+        }
+        if wide {
+            // keep the per-origin condition by construction: an operation that would arrive more than (just under) an
+            // hour behind the newest operation of its origin that has already arrived is not delivered at all
+            let mut newest: BTreeMap<u8, u64> = BTreeMap::new();
+            ops.retain(|(op, _)| {
+                let seen = newest.get(&op.stamp.node).copied().unwrap_or(0);
+                if op.stamp.secs + 3_590 < seen {
+                    return false;
+                }
+                newest.insert(op.stamp.node, seen.max(op.stamp.secs));
+                true
+            });
         }
         Case { sources, ops }
     }
@@ -98,7 +118,8 @@ impl Prop for C04 {
     }
 
     fn rule(&self) -> &'static str {
-        "1-7 inserts/deletes on 1-3 keys, distinct stamps from a tie-rich grid inside a 3000 s window, \
+        "1-7 inserts/deletes on 1-3 keys, distinct stamps from a tie-rich grid inside a 3000 s window (one case in three: over 2 or 4 hours, an operation \
+         arriving more than an hour behind the newest already-arrived operation of its own origin being left out), \
          arrival order = generated permutation, 0-2 of them delivered a second time later on (same or other source), \
          source per op generated (OrSWotSet<1> and <2>); oracle: \
          after every op will_apply(before)==return value==(view of the key changed), no key both live and \
@@ -224,6 +245,10 @@ fn run_n<const N: usize>(case: &Case) -> Outcome {
     }
     if N == 2 {
         labels.push("two_sources");
+    }
+    let secs: Vec<u64> = case.ops.iter().map(|(o, _)| o.stamp.secs).collect();
+    if secs.iter().max().unwrap_or(&0) - secs.iter().min().unwrap_or(&0) > 3_600 {
+        labels.push("stamps_span_more_than_one_hour");
     }
     Ok(Pass { nontrivial: late, labels })
 }
